@@ -8,7 +8,7 @@ META = {
     "level": "exploration",
     "engine": "hypothesis",
     "rule": "cases = (algorithm configuration, solver environment, scheme, dataset, return_at_most_one_ranking, RNG "
-            "seed for KwikSort pivots) over every configuration of vlib/configs.py (34 configurations incl. the eight "
+            "seed for KwikSort pivots) over every configuration of vlib/configs.py (35 configurations incl. the eight "
             "get_algorithm defaults, nested starters/auxiliaries, both solver back-ends; CPLEX paths through the "
             "stand-in solver). Oracle: validity predicate (>=1 ranking, exactly 1 when asked, non-empty pairwise "
             "disjoint buckets, union == universe, Element identity and type). Documented refusals count as 'not "
